@@ -6,6 +6,7 @@ import (
 	"strings"
 
 	"github.com/opsidian/parsley/ast"
+	"github.com/opsidian/parsley/combinator"
 	"github.com/opsidian/parsley/ast/interpreter"
 	"github.com/opsidian/parsley/data"
 	"github.com/opsidian/parsley/parser"
@@ -28,6 +29,10 @@ type TNode struct {
 	Kind   string  `json:"k"`           // nt term lit empty walkable xformable checkable list
 	Interp string  `json:"i,omitempty"` // "", plain, checker, transformer, both, select0, selectlast, array, libnil, object
 	Kids   []TNode `json:"c,omitempty"`
+	// ViaSeq: the non-terminal is produced by a named, bound combinator.SeqOf whose operands
+	// hand over the (already built) children - the way parsers make such nodes - instead of
+	// a direct ast.NewNonTerminalNode call
+	ViaSeq bool `json:"s,omitempty"`
 }
 
 type c13Step struct {
@@ -122,6 +127,14 @@ func genTree(r *Rand, depth, maxDepth int, budget *int) TNode {
 	}
 	for i := 0; i < n; i++ {
 		t.Kids = append(t.Kids, genTree(r, depth+1, maxDepth, budget))
+	}
+	if t.Kind == "nt" && r.Chance(1, 4) {
+		t.ViaSeq = true
+		for _, k := range t.Kids {
+			if k.Kind == "list" {
+				t.ViaSeq = false
+			}
+		}
 	}
 	return t
 }
@@ -325,7 +338,28 @@ func (n *checkableNode) StaticCheck(userCtx interface{}) parsley.Error {
 
 // ---- one execution ------------------------------------------------------------------------
 
+// viaSeq lets a named and bound Sequence assemble the node from its children.
+func (r *c13Run) viaSeq(id int, kids []parsley.Node, interp parsley.Interpreter) parsley.Node {
+	ps := make([]parsley.Parser, len(kids))
+	for i := range kids {
+		k := kids[i]
+		ps[i] = parser.Func(func(*parsley.Context, data.IntMap, parsley.Pos) (parsley.Node, data.IntSet, parsley.Error) {
+			return k, data.EmptyIntSet, nil
+		})
+	}
+	seq := combinator.SeqOf(ps...).Token("NT").Name(fmt.Sprintf("n%d", id))
+	if interp != nil {
+		seq = seq.Bind(interp)
+	}
+	n, _, err := seq.Parse(r.seqCtx, data.EmptyIntMap, r.seqCtx.Reader().Pos(0))
+	if nt, ok := n.(*ast.NonTerminalNode); ok && err == nil {
+		return nt
+	}
+	return ast.NewNonTerminalNode("NT", kids, interp) // (a list child: the sequence returned alternatives)
+}
+
 type c13Run struct {
+	seqCtx  *parsley.Context
 	log     []string
 	calls   int
 	fault   int
@@ -506,6 +540,8 @@ func (r *c13Run) build(t *TNode) parsley.Node {
 	case "nt":
 		if len(kids) == 0 {
 			n = ast.NewEmptyNonTerminalNode("NT", parsley.Pos(id), r.interp(t))
+		} else if t.ViaSeq && r.seqCtx != nil {
+			n = r.viaSeq(id, kids, r.interp(t))
 		} else {
 			n = ast.NewNonTerminalNode("NT", kids, r.interp(t))
 		}
@@ -889,6 +925,8 @@ func kidsOfReal(n parsley.Node) []parsley.Node {
 func c13ExecuteSeq(tree *TNode, steps []c13Step) (calls []int, mismatch string) {
 	ctxv := 0
 	r := &c13Run{userCtx: &ctxv, ids: map[interface{}]int{}}
+	sf := text.NewFile("seq", []byte("x"))
+	r.seqCtx = parsley.NewContext(parsley.NewFileSet(sf), text.NewReader(sf))
 	root := r.build(tree)
 	m := &c13Model{schema: map[int]string{}}
 	mroot := m.index(tree)
